@@ -13,6 +13,7 @@ package c17
 import (
 	"encoding/json"
 	"fmt"
+	"os"
 	"sort"
 	"strconv"
 	"strings"
@@ -60,6 +61,19 @@ type Case struct {
 	TapeSeed    uint64   `json:"tape_seed"`
 	Tape        []uint32 `json:"tape,omitempty"`
 	Replay      bool     `json:"replay,omitempty"`
+	// KnownRaces names the Go maps whose unordered accesses are listed as
+	// known findings (class "map-race:<map>"); races on them are counted,
+	// not reported, so that they cannot hide a race on another map.
+	// Acc (s3 clos): slots are read and written through generated accessor
+	// functions instead of slot-value.
+	Acc        bool     `json:"acc,omitempty"`
+	KnownRaces []string `json:"known_races,omitempty"`
+	// Tries > 0 (confirm cases of known findings only): execute the program
+	// under up to Tries different schedules and report the first violation
+	// of class Want. A pinned schedule would stop reproducing a race as soon
+	// as an unrelated edit moves a scheduling point.
+	Tries int    `json:"tries,omitempty"`
+	Want  string `json:"want,omitempty"`
 }
 
 type engine struct{}
@@ -96,6 +110,11 @@ func (e *engine) Meta() harness.Meta {
 func (e *engine) Generate(seed uint64, idx int, tier string, avoid []harness.Finding) json.RawMessage {
 	r := tape.NewRand(tape.Mix(seed, uint64(idx)))
 	c := Case{Salt: r.Uint64(), TapeSeed: r.Uint64()}
+	for _, f := range avoid {
+		if m, ok := strings.CutPrefix(f.Class, "map-race:"); ok {
+			c.KnownRaces = append(c.KnownRaces, m)
+		}
+	}
 	big := tier == "thorough" && r.Pct(20)
 	switch x := r.Intn(100); {
 	case x < 40:
@@ -132,6 +151,7 @@ func (e *engine) Generate(seed uint64, idx int, tier string, avoid []harness.Fin
 		c.Iter = 1 + r.Intn(4)
 		c.Kind = []string{"clos", "flavor", "hash", "struct"}[r.Intn(4)]
 		c.Resync = c.Kind != "hash" && r.Pct(40)
+		c.Acc = c.Kind == "clos" && r.Pct(50)
 	case x < 89:
 		c.Scen = "s6"
 		c.R = 2 + r.Intn(3)
@@ -143,7 +163,7 @@ func (e *engine) Generate(seed uint64, idx int, tier string, avoid []harness.Fin
 		c.Scen = "s4"
 		c.R = 2 + r.Intn(3)
 		for i := 0; i < c.R; i++ {
-			c.Work = append(c.Work, []string{"defvar", "defun", "generic", "print", "lambda", "exit", "exit", "defclass", "defflavor"}[r.Intn(9)])
+			c.Work = append(c.Work, s4Kinds[r.Intn(len(s4Kinds))])
 		}
 		if r.Pct(35) {
 			// homogeneous: every routine does the same kind of work, which is
@@ -163,6 +183,9 @@ func (e *engine) Generate(seed uint64, idx int, tier string, avoid []harness.Fin
 	b, _ := json.Marshal(c)
 	return b
 }
+
+var s4Kinds = []string{"defvar", "defun", "generic", "print", "lambda", "exit", "exit", "defclass", "defflavor",
+	"defstruct", "defpackage", "defconstant", "unbind", "apropos", "describe", "unintern", "lookup"}
 
 // ---- program generation ----
 
@@ -259,7 +282,11 @@ func (c *Case) program(sfx string) program {
 		case "clos":
 			fmt.Fprintf(&setup, "(defclass box%s () (", sfx)
 			for t := 0; t < c.R; t++ {
-				fmt.Fprintf(&setup, "(s%d :initform 0) ", t)
+				if c.Acc {
+					fmt.Fprintf(&setup, "(s%d :initform 0 :accessor box%s-s%d) ", t, sfx, t)
+				} else {
+					fmt.Fprintf(&setup, "(s%d :initform 0) ", t)
+				}
 			}
 			setup.WriteString("))\n")
 			fmt.Fprintf(&b, "(let ((o (make-instance 'box%s)) (fin (make-channel 64)))\n (set-synchronized o t)\n", sfx)
@@ -290,6 +317,10 @@ func (c *Case) program(sfx string) program {
 			case "clos":
 				wr = fmt.Sprintf("(setf (slot-value o 's%d) (+ %d i))", t, (t+1)*100)
 				rd = fmt.Sprintf("(sim-emit \"read\" %d %d (slot-value o 's%d))", t, other, other)
+				if c.Acc {
+					wr = fmt.Sprintf("(setf (box%s-s%d o) (+ %d i))", sfx, t, (t+1)*100)
+					rd = fmt.Sprintf("(sim-emit \"read\" %d %d (box%s-s%d o))", t, other, sfx, other)
+				}
 			case "struct":
 				wr = fmt.Sprintf("(setf (sbox%s-s%d o) (+ %d i))", sfx, t, (t+1)*100)
 				rd = fmt.Sprintf("(sim-emit \"read\" %d %d (sbox%s-s%d o))", t, other, sfx, other)
@@ -373,6 +404,28 @@ func (c *Case) program(sfx string) program {
 		case "defflavor":
 			body = fmt.Sprintf("(progn (defflavor fl%d%s ((x %d)) () :gettable-instance-variables :settable-instance-variables) (let ((o (make-instance 'fl%d%s))) (send o :set-x (+ 2 (send o :x))) (sim-emit \"r\" %d (send o :x))))",
 				t, sfx, t*5, t, sfx, t)
+		case "defstruct":
+			body = fmt.Sprintf("(progn (defstruct st%d%s (a 1) (b %d)) (let ((o (make-st%d%s :a 5))) (setf (st%d%s-b o) (+ 1 (st%d%s-b o))) (sim-emit \"r\" %d (st%d%s-a o) (st%d%s-b o))))",
+				t, sfx, t, t, sfx, t, sfx, t, sfx, t, t, sfx, t, sfx)
+		case "defpackage":
+			body = fmt.Sprintf("(progn (defpackage \"pk%d%s\") (intern \"ZZ%d\" \"pk%d%s\") (sim-emit \"r\" %d (package-name (find-package \"pk%d%s\")) (if (find-symbol \"ZZ%d\" \"pk%d%s\") 'found 'missing) (delete-package \"pk%d%s\") (find-package \"pk%d%s\")))",
+				t, sfx, t, t, sfx, t, t, sfx, t, t, sfx, t, sfx, t, sfx)
+		case "defconstant":
+			body = fmt.Sprintf("(progn (defconstant +c%d%s+ %d) (sim-emit \"r\" %d +c%d%s+ (constantp '+c%d%s+) (boundp '+c%d%s+)))", t, sfx, t+30, t, t, sfx, t, sfx, t, sfx)
+		case "unbind":
+			body = fmt.Sprintf("(progn (defvar *u%d%s* 1) (defun u%d%s () %d) (let ((r (list (boundp '*u%d%s*) (fboundp 'u%d%s) (u%d%s)))) (makunbound '*u%d%s*) (fmakunbound 'u%d%s) (sim-emit \"r\" %d r (boundp '*u%d%s*) (fboundp 'u%d%s))))",
+				t, sfx, t, sfx, t, t, sfx, t, sfx, t, sfx, t, sfx, t, sfx, t, t, sfx, t, sfx)
+		case "apropos":
+			body = fmt.Sprintf("(progn (defvar *apx%d%s* 1) (defun apx%d%s-f () 1) (sim-emit \"r\" %d (apropos-list \"apx%d%s\")))", t, sfx, t, sfx, t, t, sfx)
+		case "describe":
+			body = fmt.Sprintf("(progn (defvar *dsc%d%s* %d \"doc of dsc\") (sim-emit \"r\" %d (with-output-to-string (s) (describe '*dsc%d%s* s)) (with-output-to-string (s) (describe 'car s))))", t, sfx, t, t, t, sfx)
+		case "allsyms":
+			body = fmt.Sprintf("(progn (defvar *als%d%s* 1) (let ((n 0) (m 0)) (do-all-symbols (s) (setq m (+ m 1)) (when (eq s '*als%d%s*) (setq n (+ n 1)))) (sim-emit \"r\" %d n (> m 100))))", t, sfx, t, sfx, t)
+		case "unintern":
+			body = fmt.Sprintf("(progn (defvar *un%d%s* 1) (sim-emit \"r\" %d (boundp '*un%d%s*) (unintern '*un%d%s*) (boundp '*un%d%s*)))", t, sfx, t, t, sfx, t, sfx, t, sfx)
+		case "lookup":
+			// only looks things up, while others define
+			body = fmt.Sprintf("(dotimes (k 3) (sim-emit \"r\" %d (fboundp 'car) (boundp '*print-base*) (class-name (find-class 'fixnum)) (funcall 'shared%s k) (package-name (find-package :cl)) (symbol-value '*print-radix*)))", t, sfx)
 		case "exit":
 			// several routines run the same compiled return-from at once
 			body = fmt.Sprintf("(dotimes (k 3) (sim-emit \"r\" %d (sharedexit%s %d)))", t, sfx, t+1)
@@ -472,9 +525,16 @@ func (c *Case) exec(main string, setup string, sfx string, solo bool) runOut {
 		}
 	}
 	s := sched.New(cfg, tp)
+	if tf := os.Getenv("C17_TRACE"); tf != "" && !solo {
+		if f, err := os.OpenFile(tf, os.O_CREATE|os.O_WRONLY|os.O_APPEND, 0o644); err == nil {
+			fmt.Fprintf(f, "=== %s\n", c.Scen)
+			s.Trace = f
+			defer f.Close()
+		}
+	}
 	out.s = s
 	out.tp = tp
-	lw := &lispsim.World{S: s, OnEmit: func(task int, text string) {
+	lw := &lispsim.World{S: s, Scrub: sfx, OnEmit: func(task int, text string) {
 		out.marks = append(out.marks, mark{seq: s.Seq(), task: task, text: text, at: s.Elapsed()})
 		if task == intTask {
 			if strings.HasPrefix(text, "guard-on") {
@@ -499,6 +559,27 @@ func (e *engine) Execute(raw json.RawMessage) (vd harness.Verdict) {
 	var c Case
 	if err := json.Unmarshal(raw, &c); err != nil {
 		panic(err)
+	}
+	if c.Tries > 0 && !c.Replay {
+		pols := []string{sched.PolicyRandom, sched.PolicyRR, sched.PolicyPCT, sched.PolicyRandom}
+		for i := 0; i < c.Tries; i++ {
+			cc := c
+			cc.Tries = 0
+			cc.TapeSeed = tape.Mix(c.TapeSeed, uint64(i))
+			cc.Salt = tape.Mix(c.Salt, uint64(i))
+			cc.Policy = pols[i%len(pols)]
+			cc.SwitchPct = []int{50, 90, 20}[i%3]
+			cc.YieldPct = []int{100, 25}[i%2]
+			cc.PCTDepth = 1 + i%3
+			b, _ := json.Marshal(cc)
+			v := e.Execute(b)
+			vd.Evals += v.Evals
+			if v.V != nil && (c.Want == "" || v.V.Class == c.Want) {
+				v.Evals = vd.Evals
+				return v
+			}
+		}
+		return vd
 	}
 	vd.Evals = 1
 	vd.Faults = map[string]int{}
@@ -548,6 +629,14 @@ func (e *engine) Execute(raw json.RawMessage) (vd harness.Verdict) {
 	}
 	if len(s.Misuse) > 0 {
 		pin(viol("runtime-misuse", "%s: %v", c.Scen, s.Misuse))
+		return
+	}
+	if os.Getenv("VERIF_RACE_LIST") != "" {
+		for _, r := range s.MapRaces {
+			fmt.Fprintf(os.Stderr, "RACE %s %s\n", c.Scen, r)
+		}
+	} else if m, races := sched.UnknownRaces(s.MapRaces, c.KnownRaces); m != "" {
+		pin(viol("map-race:"+m, "%s: two routines access the shared Go map or slice %s with nothing ordering them - on the real runtime a data race (for a map the process can end with \"concurrent map writes\" or \"concurrent map read and map write\") (kind, site of the open write window, site of the other access): %v", c.Scen, m, races))
 		return
 	}
 	if out.mainRes.Cond != "" {
